@@ -4,6 +4,7 @@ from pyvc import logic as L
 from pyvc import registry as R
 from pyvc.values import *
 from pyvc.spec import declare_pred, spec
+from pyvc.state import RaisedEx
 
 T = "cst"
 declare_always_truthy("ImportNode", "Alias", "Item", "ImpTransformer", "CstName")
@@ -70,6 +71,9 @@ L.axiom(T, "mk-item-fields", L.FA([_m, _o, _al], z3.And(item_module(mk_item(_m, 
                                                         mk_item(_m, _o, _al) != L.NONE), [mk_item(_m, _o, _al)]))
 L.axiom(T, "gatherer-views", L.FA(_g, z3.And(L.is_dictlike(g_symbols(_g)), L.is_dictlike(g_module_aliases(_g)), L.is_dictlike(g_objects(_g)), L.is_dictlike(g_aliases(_g)),
                                              g_symbols(_g) != L.NONE, g_modules(_g) != L.NONE), [gathered(_g)]))
+_gi = L.const("gi", L.I)
+L.axiom(T, "alias-pairs", L.FA([_g, _m, _gi], z3.Implies(z3.And(L.has(g_aliases(_g), _m), 0 <= _gi, _gi < L.len_(L.get(g_aliases(_g), _m))), L.len_(L.nth(L.get(g_aliases(_g), _m), _gi)) == 2),
+                               [L.nth(L.get(g_aliases(_g), _m), _gi)]))
 R.SPEC["mk_item"] = SpecFn(lambda ip, a_, kw: ZV(mk_item(*[as_v(x) for x in a_]), "Item"), "mk_item")
 
 
@@ -99,6 +103,8 @@ def _module_visit(ip, r, a_, kw, node):
     g = a_[0]
     if not (isinstance(g, ZV) and base_tag(g.tag) == "Gatherer"):
         raise Unsupported("Module.visit(%r)" % (g,))
+    # libcst is deterministic: what a gatherer holds after visiting a module is a function of the module
+    ip.st.assume(g.term == L.fn("gatherer_of", L.V, L.V)(r.term))
     ip.st.assume(gathered(g.term) == r.term)
     return r
 
@@ -115,3 +121,90 @@ R.ATTRS[("Gatherer", "alias_mapping")] = lambda ip, r: ZV(g_aliases(r.term), "Di
 def _gathered_from(ip, args, kw):
     """The gatherer state after visiting a module: a function of the module (libcst is deterministic)."""
     return ZV(L.fn("gatherer_of", L.V, L.V)(as_v(args[0])), "Gatherer")
+
+# ---- cli.apply_stub_using_libcst: the libcst pipeline as uninterpreted functions of exactly the arguments each stage is given (what the stages do is
+# bounded: C15 / C16 companions). The context object is a Python-side ghost (straight-line code): what was stored in it is what the visitor built from it sees.
+parsed = L.fn("cst_parsed", L.S, L.V)                     # libcst.parse_module(text)
+applied = L.fn("cst_applied", L.V, L.V, L.B, L.B, L.V)    # ApplyTypeAnnotationsVisitor(stub, overwrite, use_future_annotations).transform_module(source)
+moved = L.fn("cst_moved", L.V, L.V, L.V)                  # MoveImportsToTypeCheckingBlockVisitor(items).transform_module(module)
+cst_code = L.fn("cst_code", L.V, L.S)                     # Module.code
+_MV = "monkeytype.type_checking_imports_transformer:MoveImportsToTypeCheckingBlockVisitor"
+
+
+def _lib_raises(ip, node, what):
+    """Any libcst entry point may raise (syntax errors, internal errors)."""
+    if ip.branch(L.fresh(what + "_raises", L.B), getattr(node, "lineno", 0)):
+        raise RaisedEx(ExcVal("Exception", exact=False), getattr(node, "lineno", 0))
+
+
+def _parse_module(ip, a_, kw, node):
+    _lib_raises(ip, node, "parse")
+    return ZV(parsed(as_str(a_[0])), "CstModule")
+
+
+def _ctx_store(ip):
+    if not hasattr(ip.st, "cst_ctx"):
+        ip.st.cst_ctx = {}
+    return ip.st.cst_ctx
+
+
+def _store_stub(ip, a_, kw, node):
+    ctx, stub, overwrite = a_[0], a_[1], (a_[2] if len(a_) > 2 else kw.get("overwrite_existing_annotations", PyC(False)))
+    fut = kw.get("use_future_annotations", a_[3] if len(a_) > 3 else PyC(False))
+    if set(kw) - {"overwrite_existing_annotations", "use_future_annotations"}:
+        raise Unsupported("store_stub_in_context(%s)" % sorted(kw))
+    _ctx_store(ip)[ctx.term.get_id()] = ("stub", stub, overwrite, fut)
+    return PyC(None)
+
+
+def _apply_visitor(ip, a_, kw, node):
+    e = _ctx_store(ip).get(a_[0].term.get_id())
+    if not e or e[0] != "stub":
+        raise Unsupported("ApplyTypeAnnotationsVisitor on a context without a stored stub")
+    v = ZV(L.fresh("apply_visitor"), "ApplyVisitor")
+    ip.st.assume(v.term != L.NONE)
+    _ctx_store(ip)[v.term.get_id()] = e
+    return v
+
+
+def _apply_transform(ip, r, a_, kw, node):
+    _, stub, overwrite, fut = _ctx_store(ip)[r.term.get_id()]
+    _lib_raises(ip, node, "apply")
+    return ZV(applied(as_v(stub), as_v(a_[0]), as_bool(overwrite), as_bool(fut)), "CstModule")
+
+
+def _store_imports(ip, a_, kw, node):
+    _ctx_store(ip)[a_[0].term.get_id()] = ("items", a_[1])
+    return PyC(None)
+
+
+def _move_visitor(ip, a_, kw, node):
+    e = _ctx_store(ip).get(a_[0].term.get_id())
+    if not e or e[0] != "items":
+        raise Unsupported("MoveImportsToTypeCheckingBlockVisitor on a context without stored imports")
+    v = ZV(L.fresh("move_visitor"), "MoveVisitor")
+    ip.st.assume(v.term != L.NONE)
+    _ctx_store(ip)[v.term.get_id()] = e
+    return v
+
+
+def _move_transform(ip, r, a_, kw, node):
+    _, items = _ctx_store(ip)[r.term.get_id()]
+    _lib_raises(ip, node, "move")
+    return ZV(moved(as_v(a_[0]), ip.seq_of(items).term), "CstModule")
+
+
+declare_always_truthy("ApplyVisitor", "MoveVisitor")
+R.EXTERNALS["libcst.parse_module"] = R.ExtFn(_parse_module)
+R.EXTERNALS["libcst.codemod.visitors.ApplyTypeAnnotationsVisitor.store_stub_in_context"] = R.ExtFn(_store_stub)
+R.EXTERNALS["libcst.codemod.visitors.ApplyTypeAnnotationsVisitor"] = R.ExtFn(_apply_visitor)
+R.METHODS[("ApplyVisitor", "transform_module")] = _apply_transform
+R.EXTERNALS[_MV + ".store_imports_in_context"] = R.ExtFn(_store_imports)
+R.EXTERNALS[_MV] = R.ExtFn(_move_visitor)
+R.METHODS[("MoveVisitor", "transform_module")] = _move_transform
+R.ATTRS[("CstModule", "code")] = lambda ip, r: ZS(cst_code(r.term))
+for _n, _f in (("cst_parsed", lambda ip, a_, kw: ZV(parsed(as_str(a_[0])), "CstModule")),
+               ("cst_applied", lambda ip, a_, kw: ZV(applied(as_v(a_[0]), as_v(a_[1]), as_bool(a_[2]), as_bool(a_[3])), "CstModule")),
+               ("cst_moved", lambda ip, a_, kw: ZV(moved(as_v(a_[0]), as_v(a_[1])), "CstModule")),
+               ("cst_code", lambda ip, a_, kw: ZS(cst_code(as_v(a_[0]))))):
+    R.SPEC[_n] = SpecFn(_f, _n)
